@@ -5,7 +5,13 @@ REGISTRY.lemma_imports = {
     "LookupEncoder": "pyjelly.serialize.lookup:LookupEncoder",
     "LookupDecoder": "pyjelly.parse.lookup:LookupDecoder",
     "Lookup": "pyjelly.serialize.lookup:Lookup",
+    "jelly": "pyjelly:jelly",
+    "encode_options": "pyjelly.serialize.encode:encode_options",
+    "options_from_frame": "pyjelly.parse.decode:options_from_frame",
+    "delimited_jelly_hint": "pyjelly.parse.ioutils:delimited_jelly_hint",
 }
 
 from . import spec_tables  # noqa: E402,F401
 from . import lookup  # noqa: E402,F401
+from . import options  # noqa: E402,F401
+from . import ioutils  # noqa: E402,F401
